@@ -218,7 +218,7 @@ section vol
 variable {ι : Type} [Fintype ι]
 /-- the proposal map preserves Lebesgue measure on phase space `(ι → ℝ) × (ι → ℝ)` — for every
     integrator, `n`, `h`, coefficient set, measurable gradient and measurable velocity map. -/
-theorem propose_volume_preserving' (vel grad : Vec ι → Vec ι) (hv : Measurable vel) (hg : Measurable grad)
+theorem propose_volume_preserving_all (vel grad : Vec ι → Vec ι) (hv : Measurable vel) (hg : Measurable grad)
     (c : Coeffs ℝ) (i : Integrator) (h : ℝ) (n : Nat) :
     MeasurePreserving (fun x : Vec ι × Vec ι => toProd (runOps vel grad id (schedule c i h n) (ofProd x)))
       ((volume : Measure (Vec ι)).prod volume) ((volume : Measure (Vec ι)).prod volume) :=
